@@ -76,11 +76,20 @@ pub fn make_builder(ctx: &Arc<Ctx>, regs: &[Reg], sid: &mut usize) -> Dispatcher
 
 /// Like `make_builder`; `after` is called with the (top-level) builder after each of its
 /// registrations (C20 formats the builder at chosen points of the registration sequence).
+/// Only ever offered to the builder in registrations it must reject.
+pub struct NopSys;
+
+impl<'a> shred::System<'a> for NopSys {
+    type SystemData = ();
+
+    fn run(&mut self, _: ()) {}
+}
+
 pub fn make_builder_cb(
     ctx: &Arc<Ctx>,
     regs: &[Reg],
     sid: &mut usize,
-    after: &mut dyn FnMut(&DispatcherBuilder<'static, 'static>, usize),
+    after: &mut dyn FnMut(&mut DispatcherBuilder<'static, 'static>, usize),
 ) -> DispatcherBuilder<'static, 'static> {
     let mut b = DispatcherBuilder::new();
     for (ri, r) in regs.iter().enumerate() {
@@ -124,7 +133,7 @@ pub fn make_builder_cb(
                 pick_fam(ctl_ty(ctx, *ctl_read), ctl_ty(ctx, *ctl_write), v);
             }
         }
-        after(&b, ri);
+        after(&mut b, ri);
     }
     b
 }
@@ -352,11 +361,15 @@ pub struct BuildOpts {
     pub do_setup: bool,
     /// also format the builder after these top-level registrations (indices into `regs`)
     pub print_after: Vec<usize>,
+    /// after these top-level registrations (indices into `regs`) attempt a registration that
+    /// the builder rejects by panicking (true: reuse of an existing name if there is one,
+    /// false: unknown dependency); the panic is caught and the builder used on
+    pub rejects: Vec<(usize, bool)>,
 }
 
 impl Default for BuildOpts {
     fn default() -> Self {
-        BuildOpts { capture_debug: false, do_setup: true, print_after: vec![] }
+        BuildOpts { capture_debug: false, do_setup: true, print_after: vec![], rejects: vec![] }
     }
 }
 
@@ -391,6 +404,17 @@ pub fn build(sc: &Scenario, opts: &BuildOpts) -> Built {
     let mut sid = 0;
     let mut early_prints: Vec<(usize, Result<String, String>)> = Vec::new();
     let mut b = make_builder_cb(&ctx, &sc.regs, &mut sid, &mut |b, ri| {
+        for (_, dup) in opts.rejects.iter().filter(|(k, _)| *k == ri) {
+            let existing: Option<String> = sc.regs[..=ri].iter().rev().find_map(|r| match r {
+                Reg::Sys { name, .. } | Reg::Batch { name, .. } if !name.is_empty() => Some(name.clone()),
+                _ => None,
+            });
+            let r = std::panic::catch_unwind(std::panic::AssertUnwindSafe(|| match (&existing, *dup) {
+                (Some(n), true) => b.add(NopSys, n, &[]),
+                _ => b.add(NopSys, "", &["no system of this name was ever registered"]),
+            }));
+            assert!(r.is_err(), "an ill-formed registration was accepted");
+        }
         if opts.print_after.contains(&ri) {
             let r = std::panic::catch_unwind(std::panic::AssertUnwindSafe(|| format!("{:?}", b)));
             early_prints.push((ri, r.map_err(|p| crate::util::payload_string(&p))));
